@@ -297,6 +297,12 @@ def run(tier):
             asts.append(c_parser.CParser().parse(p, "t.c"))
         except Exception:
             pass
+    from . import c03
+    for p in c03.declaration_programs(ctx, rnd, 400 if tier == "quick" else 5000):
+        try:
+            asts.append(c_parser.CParser().parse(p, "d.c"))
+        except Exception:
+            pass
     for name, txt in corpus.preprocessed(None):
         try:
             asts.append(c_parser.CParser().parse(txt, name))
